@@ -17,21 +17,22 @@ type c06Sym struct {
 	kind  string // open | clause | end | leaf
 	src   string
 	block string // for end tags: the block they close
+	taken bool   // openers: the main body is taken; clauses: the clause's own condition holds
 }
 
 var c06Alpha = func() []c06Sym {
 	out := []c06Sym{
-		{"text", "leaf", "", ""},
-		{"object", "leaf", `{{ "O;" }}`, ""},
-		{"assign", "leaf", "{% assign z = 1 %}", ""},
+		{"text", "leaf", "", "", false},
+		{"object", "leaf", `{{ "O;" }}`, "", false},
+		{"assign", "leaf", "{% assign z = 1 %}", "", false},
 	}
 	opens := []struct{ n, args string }{{"if", "true"}, {"unless", "false"}, {"case", "1"}, {"for", "i in (1..1)"}, {"tablerow", "i in (1..1)"}, {"capture", "c"}, {"comment", ""}, {"raw", ""}}
 	for _, o := range opens {
-		out = append(out, c06Sym{o.n, "open", strings.TrimSpace("{% "+o.n+" "+o.args) + " %}", ""})
+		out = append(out, c06Sym{o.n, "open", strings.TrimSpace("{% "+o.n+" "+o.args) + " %}", "", true})
 	}
-	out = append(out, c06Sym{"else", "clause", "{% else %}", ""}, c06Sym{"elsif", "clause", "{% elsif true %}", ""}, c06Sym{"when", "clause", "{% when 1 %}", ""})
+	out = append(out, c06Sym{"else", "clause", "{% else %}", "", true}, c06Sym{"elsif", "clause", "{% elsif true %}", "", true}, c06Sym{"when", "clause", "{% when 1 %}", "", true})
 	for _, o := range opens {
-		out = append(out, c06Sym{"end" + o.n, "end", "{% end" + o.n + " %}", o.n})
+		out = append(out, c06Sym{"end" + o.n, "end", "{% end" + o.n + " %}", o.n, false})
 	}
 	return out
 }()
@@ -43,6 +44,7 @@ var c06Admits = map[string]map[string]bool{
 
 // model tree
 type c06Node struct {
+	taken   bool
 	label   string // T<k>; | O | A | block name | RAW
 	body    []*c06Node
 	clauses []*c06Node // label = clause name
@@ -56,6 +58,14 @@ type c06Verdict struct {
 }
 
 func c06Model(seq []int) c06Verdict {
+	syms := make([]c06Sym, len(seq))
+	for i, si := range seq {
+		syms[i] = c06Alpha[si]
+	}
+	return c06ModelSyms(syms)
+}
+
+func c06ModelSyms(seq []c06Sym) c06Verdict {
 	type frame struct {
 		node *c06Node
 		ap   *[]*c06Node
@@ -81,8 +91,7 @@ func c06Model(seq []int) c06Verdict {
 		}
 		return strings.Join(names, ">") + "|" + mode
 	}
-	for k, si := range seq {
-		sym := c06Alpha[si]
+	for k, sym := range seq {
 		src := sym.src
 		if sym.name == "text" {
 			src = "T" + strconv.Itoa(k) + ";"
@@ -114,7 +123,7 @@ func c06Model(seq []int) c06Verdict {
 				rawNode = &c06Node{label: "RAW"}
 				*ap = append(*ap, rawNode)
 			default:
-				n := &c06Node{label: sym.name}
+				n := &c06Node{label: sym.name, taken: sym.taken}
 				*ap = append(*ap, n)
 				stack = append(stack, frame{cur, ap})
 				cur = n
@@ -124,7 +133,7 @@ func c06Model(seq []int) c06Verdict {
 			if cur == nil || !c06Admits[cur.label][sym.name] {
 				return c06Verdict{accept: false, state: "reject"}
 			}
-			c := &c06Node{label: sym.name}
+			c := &c06Node{label: sym.name, taken: sym.taken}
 			cur.clauses = append(cur.clauses, c)
 			ap = &c.body
 		case "end":
@@ -223,23 +232,23 @@ func c06Render(ns []*c06Node) (out string, ok bool) {
 		case "A":
 		case "RAW":
 			sb.WriteString(n.raw)
-		case "if", "unless", "for", "tablerow":
-			sub(n.body)
-			// clause bodies are never taken (if true / unless false / non-empty loop) but must still be well-formed
-			for _, c := range n.clauses {
-				if _, k := c06Render(c.body); !k {
-					ok = false
-				}
-			}
-		case "case":
-			if len(n.body) > 0 {
+		case "if", "unless", "for", "tablerow", "case":
+			if n.label == "case" && len(n.body) > 0 {
 				ok = false // content between case and the first when: not defined
 			}
-			taken := false
+			chosen := false
+			if n.label != "case" && n.taken {
+				chosen = true
+				sub(n.body)
+			} else if _, k := c06Render(n.body); !k {
+				ok = false
+			}
 			for _, c := range n.clauses {
-				if !taken && (c.label == "when" || c.label == "else") {
-					taken = true
+				if !chosen && c.taken {
+					chosen = true
 					sub(c.body)
+				} else if _, k := c06Render(c.body); !k {
+					ok = false // clause bodies that are not taken must still be well-defined
 				}
 			}
 		case "capture":
@@ -261,7 +270,7 @@ func c06Families(tier string) []explore.Family {
 		N = 6
 	}
 	K := len(c06Alpha)
-	return []explore.Family{{Name: fmt.Sprintf("token-sequences<=%d", N), Count: seqCount(K, N), Run: func(i int64, r *explore.Rec) {
+	return []explore.Family{c06SemFamily(tier), {Name: fmt.Sprintf("token-sequences<=%d", N), Count: seqCount(K, N), Run: func(i int64, r *explore.Rec) {
 		seq := seqAt(K, i)
 		var sb strings.Builder
 		for k, si := range seq {
@@ -329,6 +338,120 @@ func c06Families(tier string) []explore.Family {
 	}}}
 }
 
+// ---- second family: every viable (never-rejected) prefix walk over a semantic alphabet in which
+// conditions may be false, so that clause bodies are the taken paths: catches content attached under
+// the wrong clause even when acceptance is right.
+
+var c06Sem = []c06Sym{
+	{"text", "leaf", "", "", false},
+	{"if", "open", "{% if true %}", "", true},
+	{"if", "open", "{% if false %}", "", false},
+	{"unless", "open", "{% unless true %}", "", false},
+	{"case", "open", "{% case 1 %}", "", false},
+	{"for", "open", "{% for i in (1..1) %}", "", true},
+	{"for", "open", "{% for i in (1..0) %}", "", false},
+	{"capture", "open", "{% capture c %}", "", true},
+	{"else", "clause", "{% else %}", "", true},
+	{"elsif", "clause", "{% elsif true %}", "", true},
+	{"elsif", "clause", "{% elsif false %}", "", false},
+	{"when", "clause", "{% when 1 %}", "", true},
+	{"when", "clause", "{% when 2 %}", "", false},
+	{"endif", "end", "{% endif %}", "if", false},
+	{"endunless", "end", "{% endunless %}", "unless", false},
+	{"endcase", "end", "{% endcase %}", "case", false},
+	{"endfor", "end", "{% endfor %}", "for", false},
+	{"endcapture", "end", "{% endcapture %}", "capture", false},
+}
+
+// c06Walk enumerates depth-first every sequence of <=maxLen symbols of c06Sem whose every prefix is
+// viable (the model has not rejected it) and calls visit on the accepted ones.
+func c06Walk(prefix []c06Sym, maxLen int, visit func(seq []c06Sym, v c06Verdict)) {
+	v := c06ModelSyms(prefix)
+	if v.state == "reject" {
+		return
+	}
+	if v.accept && len(prefix) > 0 {
+		visit(prefix, v)
+	}
+	if len(prefix) >= maxLen {
+		return
+	}
+	for _, sym := range c06Sem {
+		c06Walk(append(append([]c06Sym{}, prefix...), sym), maxLen, visit)
+	}
+}
+
+func c06SemFamily(tier string) explore.Family {
+	maxLen := 6
+	if tier == "thorough" {
+		maxLen = 8
+	}
+	K := len(c06Sem)
+	return explore.Family{Name: fmt.Sprintf("well-nested-with-false-conditions<=%d", maxLen), Count: int64(K * K), Run: func(i int64, r *explore.Rec) {
+		first := []c06Sym{c06Sem[int(i)/K], c06Sem[int(i)%K]}
+		if int(i)%K == 0 && int(i)/K == 0 {
+			// the single-symbol sequences belong to shard (0,0)
+			for _, sym := range c06Sem {
+				c06Walk([]c06Sym{sym}, 1, func(seq []c06Sym, v c06Verdict) { c06CheckAccepted(r, seq, v) })
+			}
+		}
+		c06Walk(first, maxLen, func(seq []c06Sym, v c06Verdict) {
+			explore.Heartbeat()
+			c06CheckAccepted(r, seq, v)
+		})
+	}}
+}
+
+func c06CheckAccepted(r *explore.Rec, seq []c06Sym, v c06Verdict) {
+	var sb strings.Builder
+	for k, sym := range seq {
+		if sym.name == "text" {
+			sb.WriteString("T" + strconv.Itoa(k) + ";")
+		} else {
+			sb.WriteString(sym.src)
+		}
+	}
+	src := sb.String()
+	r.Eval()
+	r.Transition()
+	r.Trace()
+	r.State("sem:" + v.state)
+	desc := func() any { return map[string]any{"template": src} }
+	var tpl *liquid.Template
+	var err liquid.SourceError
+	if p := explore.Safe(func() { tpl, err = c06.eng.ParseTemplate([]byte(src)) }); p != nil {
+		r.Violation(p.Key(), desc(), "accepted", p.Value)
+		return
+	}
+	if err != nil {
+		r.Violation("A1:accept-reject:well-nested-rejected", desc(), "accepted", "rejected: "+safeErr(err))
+		return
+	}
+	norm := func(s string) string { return strings.ReplaceAll(s, "; T", ";T") }
+	if want, got := norm(c06Shape(v.root)), norm(c06ImplShape([]render.Node{tpl.GetRoot()})); got != want {
+		r.Violation("A2:tree-shape", desc(), want, got)
+		return
+	}
+	exp, ok := c06Render(v.root)
+	if !ok {
+		r.Class("sem/accepted/render-unspecified")
+		return
+	}
+	var out []byte
+	var rerr liquid.SourceError
+	if p := explore.Safe(func() { out, rerr = tpl.Render(map[string]any{}) }); p != nil {
+		r.Violation(p.Key(), desc(), exp, p.Value)
+		return
+	}
+	r.Class("sem/accepted/rendered")
+	if rerr != nil || string(out) != exp {
+		r.Violation("A3:rendered-markers", desc(), strconv.Quote(exp), fmt.Sprintf("%q err=%v", out, rerr))
+	}
+	if r.WantSample() {
+		r.Sample(map[string]any{"template": src, "rendered": string(out)})
+	}
+}
+
 // c06Why names the structural reason of a reject/accept disagreement (violation key).
 func c06Why(seq []int, v c06Verdict) string {
 	if v.accept {
@@ -351,7 +474,7 @@ func init() {
 		ID:    "C06",
 		Level: "model_checking",
 		Rule: "all token sequences of length <=5 (quick) / <=6 (thorough) over the 22-symbol alphabet {text marker, object, plain tag, 8 block openers, else/elsif/when, 8 end tags}, every tag with valid arguments so only structure decides; " +
-			"model = pushdown acceptor with comment/raw modes and the clause table of the Liquid documentation; every sequence is parsed by the real ParseTemplate (no state merging); accepted templates are compared by tree shape (GetRoot) and by rendered markers; " +
+			"model = pushdown acceptor with comment/raw modes and the clause table of the Liquid documentation; every sequence is parsed by the real ParseTemplate (no state merging); accepted templates are compared by tree shape (GetRoot) and by rendered markers; second family: every accepted sequence of <=6 (quick) / <=8 (thorough) symbols over an 18-symbol semantic alphabet in which conditions may be false (if false, unless true, empty for, when 2, elsif false), enumerated by a depth-first walk over model-viable prefixes, so that else/elsif/when bodies are the taken paths; " +
 			"state = PDA configuration (open-block stack, mode) after the sequence; transition/trace = one sequence",
 		Assumptions: []string{
 			"rendering is not compared when a clause follows an else or content stands between case and its first when (order semantics not stated); acceptance and tree shape still are",
